@@ -96,6 +96,15 @@ def run(ctx):
         if rv['k'] == 'ref' and rv.get('mut') and rv['place']['local'] == sols[0]:
             users = [cname(callee_name(t)) for bi, t in five.calls() if any(a.get('k') in ('copy', 'move') and not a['place']['proj'] and a['place']['local'] == st['lhs']['local'] for a in t['args'])]
             lent.append((i, j, users))
+    if lent and by_tail is None:
+        # what a borrower does to the rows is decided, when the solver can be run symbolically, by what comes out: slot 6 of every
+        # returned candidate over all scenarios must still be the caller's value
+        lent_tail = opw.tail_verdict(ctx, five, True, ('slot5',))
+        if lent_tail is not None and lent_tail[0]:
+            for i, j, users in lent:
+                ctx.ok('R06.2', 'slot5/lent-to-%s' % (users[0].split('::')[-1] if users else 'unknown'), five.where(i, j),
+                       'the rows are lent mutably, and slot 6 of every returned candidate is still the caller\'s J6 in every scenario of the symbolic run')
+            lent = []
     for i, j, users in lent:
         ctx.violation('R06.2', 'slot5/lent-to-%s' % (users[0].split('::')[-1] if users else 'unknown'), five.where(i, j), five.path,
                       'the candidate row is lent mutably to %s: whatever it does to the six slots also happens to the caller\'s J6' % (users or ['an unknown user']), found=str(users))
@@ -109,6 +118,9 @@ def run(ctx):
         src = util.loop_source(row) if row is not None else None
         r = util.range_of(src) if src is not None else None
         ok = r is not None and util.const_val(r[0]) == 0
+    if not ok and by_tail is None:
+        # no `sols[si][5] = j6` statement of its own (the rows are built whole, `theta.map(|t| [.., j6])`): by the symbolic run
+        by_tail = opw.tail_verdict(ctx, five, True, ('slot5',))
     if by_tail is not None:
         ok = by_tail[0]
     ctx.check(ok, 'R06.2', 'slot5', five.where(slot5[0][1], slot5[0][2]) if slot5 else five.where(0), five.path,
@@ -152,6 +164,16 @@ def run(ctx):
         gs = [(strip(g), opw.truth(k)) for g, k, sw in five.guard_terms(bi)]
         has_xyz = any(isinstance(g, tuple) and g[0] == 'call' and g[1] in {b.path for b in xyz} and v is True for g, v in gs)
         has_full = any(isinstance(g, tuple) and g[0] == 'call' and g[1] in {b.path for b in full} for g, v in gs)
+        if not has_xyz and not has_full:
+            # guarded by no gate helper at all: the comparison may be written out at the push - read from the symbolic run
+            f5, tail5 = opw.solver_tail(ctx, five, True)
+            if f5 is not None:
+                kinds = sorted({k for k, op, tol in tail5.gate_clauses()})
+                gate_hit = [m for k, m in f5 if k in ('gate', 'gate-fresh')]
+                ctx.check(kinds == ['position'] and not gate_hit, 'R06.3', 'gate', five.where(bi), five.path,
+                          'the 5-DOF candidates must pass the position-only gate (a full-pose gate rejects every answer that only matches the tool point)' +
+                          (': ' + gate_hit[0] if gate_hit else ''), found='gate clauses: %s' % kinds)
+                continue
         ctx.check(has_xyz and not has_full, 'R06.3', 'gate', five.where(bi), five.path,
                   'the 5-DOF candidates must pass the position-only gate (a full-pose gate rejects every answer that only matches the tool point)',
                   found='position-only=%s full-pose=%s' % (has_xyz, has_full))
